@@ -19,7 +19,7 @@ SPEC = {
     "required": ["shot_refinement", "refinement_invariant", "step_refinement", "trace_iff_run", "runs_iff_oracle",
                  "gateSemOK_basis_gates", "shot_refinement_basis_gates", "gateSemOK_all_terms", "shot_refinement_unconditional",
                  "shot_refinement_complex", "complex_is_model", "hyps_complex", "histogram_gf_unconditional",
-                 "measure_all_repeated_target_ors", "stab_shot_refinement", "stab_measure_per_shot", "stab_shot_refinement_generated", "localWeights_of_field", "counts_invariant",
+                 "measure_all_repeated_target_ors", "stab_shot_refinement", "stab_measure_per_shot", "stab_shot_refinement_generated", "stab_shot_refinement_generated_unconditional", "localWeights_of_field", "counts_invariant",
                  "collapse_is_project_rescale", "weight_is_born", "collapse_exact", "measure_per_shot", "peek_leaves_state",
                  "peek_all_leaves_state", "reset_per_shot", "reset_leaves_qubit_zero", "stab_peek_all_bell_impossible_value"],
     "drivers": ["drv_c02"],
